@@ -151,7 +151,7 @@ def targeted_case(rnd, kind, ntok, gap, wrap, indent, nprefix, start, split, chu
     if wrap == 'group':
         e = '( ' + e + ' )'
     elif wrap == 'call':
-        e = 'foo( 1, ' + e + ' )'
+        e = rnd.choice(['foo', 'foo', 'gr\u00f6\u00dfe', 'na\u00efve_len', 'x\u00b2']) + '( 1, ' + e + ' )'
     pre, post = KINDS[kind]
     line = indent + pre + e + post + rnd.choice(['', '', ' ', '   ', '\t', ' \t '])      # trailing white space is allowed on every line
     prefix = [rnd.choice(PREFIX_POOL) for _ in range(nprefix)]
@@ -360,6 +360,15 @@ def mutate_program(rnd, src):
 
 def check_mutant(src, mutated, kind):
     d = {'kind': 'mutant', 'text': mutated, 'original': src, 'mutation': kind, 'start': 1}
+    # the unmutated program is valid by construction: a diagnostic for it points at source that is not at fault
+    try:
+        status0, res0 = parse(src)
+    except Exception as e:  # pylint: disable=broad-except
+        raise Violation('parse_script raised %s on a valid program' % type(e).__name__, d, 'host-exception:' + type(e).__name__) from e
+    if status0 != 'ok':
+        raise Violation('a valid generated program is rejected: %s, line %r column %r' % (getattr(res0, 'error', status0), getattr(res0, 'line_number', None),
+                                                                                           getattr(res0, 'column_number', None)),
+                        dict(d, text=src, mutation='none'), 'valid-program-rejected')
     if kind == 'closing-keyword-deleted':
         try:
             status, res = parse(mutated)
